@@ -490,7 +490,7 @@ func readJournal(path string, from int64, agg *Agg, mu *sync.Mutex) (sr shardRes
 func runParent(c *Ctx) int {
 	spec := c.Spec
 	t0 := time.Now()
-	work := filepath.Join(Root, ".work", spec.Prop+"-"+c.Tier)
+	work := filepath.Join(Root, ".work", fmt.Sprintf("%s-%s-%d", spec.Prop, c.Tier, os.Getpid()))
 	os.RemoveAll(work)
 	os.MkdirAll(work, 0o755)
 	defer os.RemoveAll(work)
@@ -668,6 +668,15 @@ func crashSig(stderr string) string {
 	return PanicSig(first, h)
 }
 
+// outDir is where evidence and replay files go: /verif, unless VERIF_OUT_DIR is set (development runs
+// against a deliberately modified tree must not overwrite the real evidence).
+func outDir() string {
+	if d := os.Getenv("VERIF_OUT_DIR"); d != "" {
+		return d
+	}
+	return Root
+}
+
 func report(c *Ctx, agg *Agg, total int64, wall time.Duration) int {
 	spec := c.Spec
 	known := loadFindings(spec.Prop)
@@ -683,7 +692,7 @@ func report(c *Ctx, agg *Agg, total int64, wall time.Duration) int {
 	sort.Strings(order)
 	newViol := 0
 	knownHits := map[string]int{}
-	os.MkdirAll(filepath.Join(Root, "replays", spec.Prop), 0o755)
+	os.MkdirAll(filepath.Join(outDir(), "replays", spec.Prop), 0o755)
 	for _, sig := range order {
 		vs := bySig[sig]
 		sort.Slice(vs, func(i, j int) bool { return vs[i].Index < vs[j].Index })
@@ -693,7 +702,7 @@ func report(c *Ctx, agg *Agg, total int64, wall time.Duration) int {
 			continue
 		}
 		newViol++
-		path := filepath.Join(Root, "replays", spec.Prop, sanitize(sig)+".json")
+		path := filepath.Join(outDir(), "replays", spec.Prop, sanitize(sig)+".json")
 		writeJSON(path, map[string]any{"property": spec.Prop, "tier": c.Tier, "signature": sig, "case_id": vs[0].CaseID, "index": vs[0].Index,
 			"detail": vs[0].Detail, "input": vs[0].Input, "occurrences_this_run": len(vs)})
 		fmt.Printf("VIOLATION property=%s replay=%s\n", spec.Prop, path)
@@ -740,7 +749,7 @@ func report(c *Ctx, agg *Agg, total int64, wall time.Duration) int {
 		"wall_s":      wall.Seconds(),
 		"violations":  newViol,
 	}
-	writeJSON(filepath.Join(Root, "evidence", spec.Prop+".json"), ev)
+	writeJSON(filepath.Join(outDir(), "evidence", spec.Prop+".json"), ev)
 	fmt.Printf("%s %s: cases=%d evaluations=%d nontrivial=%d states=%d transitions=%d outcomes=%d known=%d new-violations=%d exhaustive=%v wall=%.1fs\n",
 		spec.Prop, c.Tier, agg.Cases, agg.Evals, agg.Nontrivial, agg.States, agg.Trans, len(agg.Outcomes), len(knownHits), newViol, exhaustive, wall.Seconds())
 	if newViol > 0 {
@@ -809,7 +818,7 @@ func runReplay(c *Ctx, path string) int {
 		return 2
 	}
 	exe, _ := os.Executable()
-	work := filepath.Join(Root, ".work", c.Spec.Prop+"-replay")
+	work := filepath.Join(Root, ".work", fmt.Sprintf("%s-replay-%d", c.Spec.Prop, os.Getpid()))
 	os.RemoveAll(work)
 	os.MkdirAll(work, 0o755)
 	defer os.RemoveAll(work)
